@@ -19,7 +19,7 @@ def main(prop, path):
         flavors = [flavor] if flavor in ("sync", "async") else ["sync", "async"]
         for fl in flavors:
             st, obs = core._impl_worker((fl, case, 20))
-            probs = props.run_oracles(prop, case, st, obs, fl)
+            probs = props.run_oracles(prop, case, st, obs, fl, replay=True)
             print(f"[{fl}] impl status={st} monitor problems={json.dumps(probs)[:1500]}")
             try:
                 mr = core.run_model_many(fl, [case])[0]
